@@ -85,9 +85,12 @@ def check(run):
     mc_ = mtrlshpk.mtrl({"shpk": "x.shpk", "textures": ["t/a.tex"], "uv_sets": 0, "color_sets": 0, "table": None, "flags": 0,
                          "keys": [(1, 2)], "constants": [(0x11, [1, 2, 3, 4]), (0x22, [5, 6]), (0x33, [7])], "samplers": [(0, 0, 0)]})
     bases.append(faults.base("mtrl:consts", "mtrl", mc_, [(o, 2) for o in range(0, len(mc_) - 1, 2)]))
-    pk, _ = c14.package(rng)
+    pk, _probe = c14.package(rng)
+    while not pk["aliases"]:
+        pk, _probe = c14.package(rng)
     pb_ = mtrlshpk.shpk(pk)
-    bases.append(faults.base("shpk:gen", "shpk", pb_, faults.words(len(pb_), 160) + [(o, 4) for o in range(160, len(pb_) - 4, 12)][:200]))
+    bases.append(faults.base("shpk:gen", "shpk", pb_, faults.words(len(pb_), 160) + [(o, 4) for o in range(160, len(pb_) - 4, 12)][:200]
+                             + faults.words(len(pb_), len(pb_))[-40:], selectors=_probe))
     sk = [("n_root", -1, [rng.getrandbits(32) for _ in range(12)]), ("j_kosi", 0, [rng.getrandbits(32) for _ in range(12)]), ("j_kosi", 1, [0] * 12)]
     for ver in (1, 2):
         tag = assets16.skeleton_tagfile([sk], rng, rich=ver == 2)
@@ -107,6 +110,16 @@ def check(run):
     pbd_base = bases[-1]
     tb_ = assets16.tera(128, [(0, 0), (-1, 5), (300, -300)])
     bases.append(faults.base("tera:gen", "tera", tb_, [(0, 4), (4, 4), (8, 4), (12, 4), (16, 4), (52, 2), (54, 2), (60, 2)]))
+    # staining template: unknown word, count, keys, offsets (in 2-byte units behind the tables), entries of five ends + values
+    st_ = struct.pack("<IiHHHH", 0x534D, 2, 1, 2, 0, 16) + struct.pack("<5H", 3, 6, 9, 10, 11) + bytes(range(1, 23)) \
+        + struct.pack("<5H", 1, 2, 3, 4, 5) + bytes(range(40, 50))
+    bases.append(faults.base("stm:gen", "stm", st_, [(0, 4), (4, 4)] + [(o, 2) for o in range(8, 26, 2)] + [(o, 2) for o in range(48, 58, 2)]))
+    # effect file: header (tag, payload size), then tagged blocks (tag, size, payload padded to the size)
+    blocks_ = b"".join(t + struct.pack("<I", len(pl)) + pl for t, pl in ((b"reV\0", struct.pack("<I", 0x20110913)), (b"PFDb", b"\1\0\0\0"),
+                                                                        (b"xPBC", struct.pack("<f", 1.5)), (b"sMBZ", struct.pack("<f", 2.0))))
+    av_ = b"XFVA" + struct.pack("<I", len(blocks_)) + blocks_
+    bases.append(faults.base("avfx:gen", "avfx", av_, faults.words(len(av_), len(av_))))
+    avfx_base = bases[-1]
     lg_ = open(REPO + "/resources/tests/empty_planlive.lgb", "rb").read()
     bases.append(faults.base("lgb:empty", "lgb", lg_, faults.words(len(lg_), 36)))
     rng = rng_run
@@ -161,6 +174,11 @@ def check(run):
             g[blk + 16 + k] ^= 0xFF
             extra.append(faults.line(n, {"id": "dat:garbled-" + mode, "entry": "dat.read", "extra": {}}, {"k": "garble", "what": k}, bytes(g),
                                      leakcheck=True, off=2048, path_fault="none"))
+    # effect blocks of every other known kind in place of a scalar block (named faults: a tag turned into another tag)
+    for tag in (b"dhcS", b"nLmT", b"timE", b"lctP", b"tcfE", b"dniB", b"xeT\0", b"ldoM", b"nCfE", b"nCdB", b"nCxT", b"nCdM", b"nChS", b"nCmT", b"nCmE", b"nCtP"):
+        g = bytearray(av_)
+        g[20:24] = tag
+        extra.append(faults.line(n, avfx_base, {"k": "tag", "what": list(tag)}, bytes(g)))
     # link cycles of the deformer (named members of the fault space): every parent field set to every link index
     for i in range(ni):
         for j in range(ni):
